@@ -44,7 +44,9 @@ def cases(tier, rng):
         th.update(RenScaleVar=True, FactScaleVar=True)
         g = cards.rand_grid(rng)
         kind = cards.pick(rng, cfg["kinds"])
-        heavy = cards.pick(rng, ["total", "total", "light", "charm", "bottom"]) if i % 7 else "charm"
+        heavy = cards.pick(rng, ["total", "total", "light", "charm", "bottom"]) if i % 7 else cards.pick(rng, ["charm", "bottom", "total", "top"])
+        if i % 7 == 0:
+            th["PTO"] = 2  # intrinsic rows of the 2nd and 3rd massive quark at O(a_s^2): their muR terms must use the scheme's nf too
         pts = cards.rand_points(rng, g["xgrid"], n=2, q2lo=3.0, q2hi=2e4)
         if i % 6 == 1:
             # one runner-wide scale-variation manager serving several nf: points in the nf=3, 4, 5 regions, in random order
